@@ -16,6 +16,16 @@ def _gen_c04(repo, work):
     return [path]
 
 
+def _gen_c11(repo, work):
+    a = _ct.ral_attest_layout(repo)
+    path = os.path.join(work, "gen_c11.go")
+    with open(path, "w") as f:
+        f.write("package alephium\n\n// generated from alephium/contracts/token_bridge/token_bridge.ral attestToken by extract/contracts.py\n")
+        f.write("var verifAttestLayout = verifAttest{TokenID: [2]int{%d, %d}, Decimals: [2]int{%d, %d}, Symbol: [2]int{%d, %d}, Name: [2]int{%d, %d}, Total: %d}\n" % (
+            a["localTokenId"] + a["decimals"] + a["symbol"] + a["name"] + (a["_total"],)))
+    return [path]
+
+
 def _gen_c07(repo, work):
     sol, ral = _ct.sol_quorum_expr(repo), _ct.ral_quorum_expr(repo)
     path = os.path.join(work, "gen_c07.go")
@@ -236,6 +246,28 @@ CHECKS["C03"] = {
                     "pkg/p2p is loaded through an overlay in which only the body of p2p.Run is replaced by panic(\"stripped\") (quic-go does not build with the installed Go); processSignedHeartbeat / processSignedObservationRequest are byte-identical",
                     "proto.Unmarshal of attacker bytes: nondeterministic success/failure"] + CHECKS["C01"]["assumptions"][1:],
 }
+CHECKS["C11"] = {
+    "runs": [
+        {"pkg": "./pkg/alephium", "entry": "VerifC11_Narrowing", "reach": ["accepted", "rejected"],
+         "shards": {"quick": ["width=8", "width=16", "width=64;num.digits=1,19,20", "width=64;num.digits=21,78"]}},
+        {"pkg": "./pkg/alephium", "entry": "VerifC11_Message", "reach": ["accepted", "rejected"],
+         "shards": {"quick": ["defect=0;plen=0,1;tc.digits=%s" % t for t in ("1", "5", "6")] + ["defect=0;plen=100;tc.digits=1;seq.digits=1;cl.digits=1"] +
+                             ["defect=%d;plen=1;tc.digits=1,5;seq.digits=1,20;cl.digits=1,3" % d for d in range(1, 13)],
+                    "thorough": ["defect=0;plen=%d;tc.digits=%s" % (p, t) for p in (0, 1, 100) for t in ("1", "5", "6")] + ["defect=%d" % d for d in range(1, 13)]}},
+        {"pkg": "./pkg/alephium", "entry": "VerifC11_Publication", "reach": ["end"]},
+        {"pkg": "./pkg/alephium", "entry": "VerifC11_HexAndAttest", "reach": ["attest-accepted", "attest-rejected"]},
+    ],
+    "bounds": {"quick": {"numerals": "decimal strings of 0..4 (uint8), 1,4,5,6 (uint16), 1,19,20,21,78 (uint64) symbolic digits without leading zero, optionally prefixed by '-' or '+', or with one arbitrary non-digit character; right or wrong type tag",
+                         "events": "sender 32 symbolic bytes (or 0/31/33), nonce 4 (or 0/3/5), payload 0/1/100 symbolic bytes, numerals of 1/5/6, 1/20/21, 1/3/4 symbolic digits; exactly one defect out of twelve kinds or none",
+                         "publication": "all fields symbolic, timestamp any non-negative millisecond count below 2^53",
+                         "attestation": "payloads of 99/100/101 symbolic bytes (symbol/name: first and last two bytes symbolic)"},
+               "thorough": {"events": "all digit-count combinations with every defect"}},
+    "outside": "ToContractId/ToContractAddress (base58 is big-integer code: not encoded; the hex pair HexToByte32/ToHex is); events with two simultaneous defects; numerals with leading zeros or more than 78 digits; JSON decoding of the SDK",
+    "assumptions": ["math/big.Int modelled as an SMT Int (SetString base 10 = optional sign then digits; Cmp, Sign, IsUint64, Uint64 by their documentation)",
+                    "hex.EncodeToString/Encode/DecodeString modelled as the injective per-nibble rendering and its inverse on rendered or constant digits; other inputs run the real decoder",
+                    "attestation layout extracted from token_bridge.ral attestToken (payload concatenation and size assertions) on every run",
+                    "pkg/alephium is loaded through the stripped-p2p.Run overlay"],
+}
 
 # generated harness parts per (module, package): regenerated from /repo on every run for every check that loads the package
-GENERATORS = {("node", "./pkg/vaa"): [_gen_c04], ("node", "./pkg/processor"): [_gen_c07]}
+GENERATORS = {("node", "./pkg/vaa"): [_gen_c04], ("node", "./pkg/processor"): [_gen_c07], ("node", "./pkg/alephium"): [_gen_c11]}
